@@ -466,10 +466,31 @@ def _conds(idx, node, stop):
     return _cond_keys(idx, node, stop)
 
 
+def r11_5(ctx):
+    r = Rule("R11.5", "merging repeated class / style / listener attributes keeps every written value: values are appended, never compared with one another or dropped",
+             "`class={next()} class={next()}` evaluates `next()` twice; treating equal-looking values as one changes how often user code runs")
+    dd = C.role_or_fail(ctx, r, "dedupe")
+    if not dd:
+        return r
+    r.saw(dd["path"])
+    n = 0
+    for x in walk(dd["body"]):
+        sides = None
+        if x.get("k") == "MethodCall" and x["method"] in ("eq_ignore_span", "eq", "ne") and x["args"]:
+            sides = [x["recv"], x["args"][0]]
+        elif x.get("k") == "Binary" and x.get("op") in ("==", "!="):
+            sides = [x["l"], x["r"]]
+        if sides and all("swc_ecma_ast::Expr" in ((strip_transparent(s_).get("ty") or s_.get("ty") or "")) for s_ in sides):
+            n += 1
+            r.ob("comparison of two attribute values #%d" % n, False, C.mloc(dd, x), "`%s`: whether a repeated value is kept depends on how it compares with an earlier one" % expr_str(x)[:80])
+    r.ob("no value comparison in the de-duplication", n == 0, "-", "%d comparison(s) of attribute values" % n)
+    return r
+
+
 def rules(ctx):
     from ..engine import only
     from . import c01, c03
-    out = [__import__('vjsx.rules.c10', fromlist=['x']).field_ratchet('evaluation count / order must not depend on earlier elements'), r11_1, r11_2, r11_3, r11_4, c03.r03_4,
+    out = [__import__('vjsx.rules.c10', fromlist=['x']).field_ratchet('evaluation count / order must not depend on earlier elements'), r11_1, r11_2, r11_3, r11_4, r11_5, c03.r03_4,
            only(c01.r01_1, lambda k: k.startswith(("component predicate", "the Fragment name")), "which hosts are components: only their children are deferred into slot functions")]
     if ctx.tier == "thorough":
         from . import controls
